@@ -3,7 +3,7 @@
    `space`/`digit` = isspace/isdigit of the C locale; head_nondigit l = l is empty or starts with a non-digit;
    after l = the state a reader leaves when it stopped in front of l (eof when l is empty, good otherwise). *)
 From Coq Require Import ZArith List.
-From C19 Require Import Model ProofsBase ProofsInt ProofsRat ProofsElt ProofsHex ProofsPoly ProofsRefute.
+From C19 Require Import Model ProofsBase ProofsInt ProofsRat ProofsElt ProofsHex ProofsPoly ProofsRefute ProofsDest ProofsPair.
 Local Open Scope Z_scope.
 
 (* Integer: for every z, after any white space, followed by any text not starting with a digit:
@@ -57,3 +57,40 @@ Theorem C19_poly_text_determines : Poly_text_determines_stmt.           Proof. e
 Print Assumptions C19_poly_text_determines.
 Theorem C19_poly_write_read_refuted : ~ Poly_write_read_stmt.           Proof. exact poly_write_read_refuted'. Qed.
 Print Assumptions C19_poly_write_read_refuted.
+
+(* ---- destinations that are NOT fresh (phase 3).  The readers take the value the variable holds when they are entered
+   (Integer_in .. old; rat_read_into; ru_read_into / ri_read_into on the limbs; poly_read_into on the coefficient vector);
+   seq_trace = the values in order, each with the state of the stream after it was read. *)
+(* any integers, any non-empty white-space separator, read one after the other into ONE variable holding any value *)
+Theorem C19_integer_sequence_same_dest : Integer_sequence_same_dest_stmt.   Proof. exact integer_sequence_same_dest. Qed.
+Print Assumptions C19_integer_sequence_same_dest.
+Theorem C19_element_sequence : Element_sequence_stmt.                       Proof. exact element_sequence. Qed.
+Print Assumptions C19_element_sequence.
+Theorem C19_element_word_sequence : Element_word_sequence_stmt.             Proof. exact element_word_sequence. Qed.
+Print Assumptions C19_element_word_sequence.
+(* rationals into one variable: values in order, no exception, stream at eof and not failed *)
+Theorem C19_rational_sequence_same_dest : Rational_sequence_same_dest_stmt. Proof. exact rational_sequence_same_dest. Qed.
+Print Assumptions C19_rational_sequence_same_dest.
+(* the Rational reader depends on the previous value of the variable only when Rational(num, 0) throws *)
+Theorem C19_rational_dest_independent : Rational_dest_independent_stmt.     Proof. exact rational_dest_independent. Qed.
+Print Assumptions C19_rational_dest_independent.
+(* mpz_to_ruint (reset; set every limb) on a variable with any limbs; the ruint / rint readers on such a variable
+   are the readers of C19_ruint_*_roundtrip / C19_rint_*_roundtrip *)
+Theorem C19_ruint_dest_independent : Ruint_dest_independent_stmt.           Proof. exact ruint_dest_independent. Qed.
+Print Assumptions C19_ruint_dest_independent.
+Theorem C19_ruint_read_any_dest : Ruint_read_any_dest_stmt.                 Proof. exact ruint_read_any_dest. Qed.
+Print Assumptions C19_ruint_read_any_dest.
+Theorem C19_rint_read_any_dest : Rint_read_any_dest_stmt.                   Proof. exact rint_read_any_dest. Qed.
+Print Assumptions C19_rint_read_any_dest.
+(* Poly1Dom::read (resize, fill 0..0 1, store each coefficient at its index) on a variable holding any polynomial *)
+Theorem C19_poly_read_dest_independent : Poly_read_dest_independent_stmt.   Proof. exact poly_read_dest_independent. Qed.
+Print Assumptions C19_poly_read_dest_independent.
+(* any polynomials in the reader's format, any white-space separator, into ONE variable: each comes back, with the stream state *)
+Theorem C19_poly_sequence : Poly_sequence_stmt.                             Proof. exact poly_sequence. Qed.
+Print Assumptions C19_poly_sequence.
+(* the known finding in full: for EVERY polynomial, indeterminate, coefficient init and destination, Poly1Dom::read of what
+   Poly1Dom::write prints ends with failbit *)
+Theorem C19_poly_write_read_never : Poly_write_read_never_stmt.             Proof. exact poly_write_read_never. Qed.
+Print Assumptions C19_poly_write_read_never.
+Theorem C19_poly_write_read_never_any_dest : Poly_write_read_never_any_dest_stmt. Proof. exact poly_write_read_never_any_dest. Qed.
+Print Assumptions C19_poly_write_read_never_any_dest.
